@@ -80,6 +80,11 @@ class VK:
                 out[idx] = s.point[nm]
         if shape == ():
             return out[()]
+        if s.cfg.get("layout") == "F" and out.ndim > 1:
+            # the same values stored column-major (a user array from np.asfortranarray / a transposed view): the
+            # specification does not depend on the memory order; code that reads memory order (ravel / reshape /
+            # flatten with order K or A, .flat, views) must not either
+            out = np.asfortranarray(out)
         return out
 
     def real_scalar(s, name, near=1.0, spread=0.3):
